@@ -4,6 +4,7 @@ import (
 	"fmt"
 	"go/constant"
 	"math"
+	"strings"
 
 	"golang.org/x/tools/go/ssa"
 )
@@ -55,7 +56,7 @@ func propC15(c *Ctx, r *Report) {
 		name  string
 		h     uint32
 		total uint64
-	}{{"before 2.0.2", e.a.get("V202EnhanceActivation") - 100, uint64(perBlock)}, {"from 2.0.2", e.a.get("V202EnhanceActivation") + 100, uint64(perBlock) * 144}} {
+	}{{"before 2.0.2", lastPayoutBelow(e.a.get("V202EnhanceActivation")), uint64(perBlock)}, {"from 2.0.2", firstPayoutFrom(e.a.get("V202EnhanceActivation")), uint64(perBlock) * 144}} {
 		var total uint64
 		bad := ""
 		for i, p := range pcts {
@@ -94,6 +95,67 @@ func propC15(c *Ctx, r *Report) {
 	// exactly one AddToBalance per developer iteration: structural (one call site inside the range loop)
 	nAdd := len(findCalls(dp, "pegnet.(*Pegnet).AddToBalance"))
 	r.check(nAdd == 1, "C15/dev-rewards", "one credit call site in DevelopersPayouts", c.pos(dp.Pos()), "", fmt.Sprintf("%d AddToBalance call sites", nAdd))
+
+	// configuration variants: activations aligned with the 144-block cadence (the property quantifies over
+	// every alignment; mainnet's are all unaligned)
+	r.rule("C15/alignment-variants", 3, "the same tables when an activation height is itself a multiple of 144")
+	for _, v := range []struct {
+		name string
+		ov   map[string]uint32
+	}{
+		{"V202EnhanceActivation aligned (274032)", map[string]uint32{"V202EnhanceActivation": 274032, "OneWaySmallAssetsConversions": 274032}},
+		{"V20DevRewardsHeightActivation aligned (260064)", map[string]uint32{"V20DevRewardsHeightActivation": 260064, "SprSignatureActivation": 260064}},
+		{"V204 mint and burn aligned (288864, 294192)", map[string]uint32{"V204EnhanceActivation": 288864, "V204BurnMintedTokenActivation": 294192}},
+	} {
+		ev := newEraCtxVariant(c, r, v.ov)
+		rr := newReport("tmp", c.Tier)
+		ev.evalRows(rr, ev.rowsC15(rr))
+		r.Scen += rr.Scen
+		var bad []string
+		for _, o := range rr.Obls {
+			if o.Status == VIOL {
+				bad = append(bad, o.Construct+": "+o.Detail)
+			}
+		}
+		// developer amounts around the (possibly aligned) 2.0.2 activation: a payout AT the activation height is x144
+		v202 := ev.a.get("V202EnhanceActivation")
+		for _, h := range []uint32{v202 - v202%144, v202 - v202%144 + 144} {
+			if !ev.a.devPayout(h) {
+				continue
+			}
+			var total uint64
+			okAll := true
+			for _, p := range pcts {
+				sc := &Scenario{Params: map[string]AVal{"height": hconst(h)}, Paths: map[string]AVal{"node.DevReward.DevRewardPct": {K: AConst, C: constant.MakeFloat64(p)}}, MaxDepth: 1, Globals: ev.globals}
+				t := newSCCP(c, sc).analyse(dp, nil)
+				r.Scen++
+				calls := t.CallsTo("AddToBalance")
+				if len(calls) != 1 {
+					okAll = false
+					continue
+				}
+				amt, ok := calls[0].Args[4].intVal()
+				if !ok {
+					okAll = false
+				}
+				total += uint64(amt)
+			}
+			want := uint64(perBlock)
+			if h >= v202 {
+				want *= 144
+			}
+			if !okAll || total != want {
+				bad = append(bad, fmt.Sprintf("developer payout at height %d totals %d, expected %d", h, total, want))
+			}
+		}
+		if len(bad) > 3 {
+			bad = bad[:3]
+		}
+		r.check(len(bad) == 0, "C15/alignment-variants", v.name, "-", "era table and developer totals agree with the oracle", strings.Join(bad, "; "))
+	}
+
+	r.rule("C15/no-carried-state", 1, "scheduled issuance depends on the height and the database only")
+	ruleNoCarriedReads(c, newSharedAnalysis(c), r, "C15/no-carried-state", reachOf(c, "node.Pegnetd.MintTokensForBalance", "node.Pegnetd.NullifyMintedTokens", "node.Pegnetd.NullifyBurnAddress", "node.Pegnetd.DevelopersPayouts"), carriedAllowedSync, "scheduled issuance")
 
 	// who may call the one-time mutators
 	r.rule("C15/one-time-callers", 3, "one-time mutators are called from their scheduled site only")
@@ -446,4 +508,23 @@ func execReachesSameTx(st *fnState, a, b ssa.Instruction) bool {
 		}
 	}
 	return false
+}
+
+// payout heights (multiples of 144) adjacent to an activation: the function is only ever called at those
+func lastPayoutBelow(a uint32) uint32 {
+	h := a - a%144
+	if h >= a {
+		h -= 144
+	}
+	if h == a {
+		h -= 144
+	}
+	return h
+}
+
+func firstPayoutFrom(a uint32) uint32 {
+	if a%144 == 0 {
+		return a
+	}
+	return a - a%144 + 144
 }
